@@ -435,6 +435,12 @@ func allTypesKV(withScalars, withArrays bool) []kvSpec {
 			kvSpec{"general.file_type", tU32, uint64(1)},
 			kvSpec{"general.type", tStr, "model"},
 			kvSpec{"llama.block_count", tU32, uint64(1)},
+			// keys the server reads through typed accessors on the create / show paths (retyped below)
+			kvSpec{"general.parameter_count", tU64, uint64(7)},
+			kvSpec{"llama.context_length", tU32, uint64(8)},
+			kvSpec{"llama.embedding_length", tU32, uint64(4)},
+			kvSpec{"llama.attention.head_count", tU32, uint64(2)},
+			kvSpec{"llama.attention.head_count_kv", tU32, uint64(1)},
 			kvSpec{"t.u8", tU8, uint64(200)},
 			kvSpec{"t.i8", tI8, neg(-5)},
 			kvSpec{"t.u16", tU16, uint64(60000)},
@@ -688,7 +694,8 @@ func fmtVal(v uint64) string {
 // ---- well-known keys: replace the value by one of every other type ---------------
 
 var wellKnownKeys = []string{"general.alignment", "general.architecture", "general.file_type", "general.type",
-	"llama.block_count", "tokenizer.ggml.tokens", "tokenizer.chat_template"}
+	"llama.block_count", "tokenizer.ggml.tokens", "tokenizer.chat_template",
+	"general.parameter_count", "llama.context_length", "llama.embedding_length", "llama.attention.head_count", "llama.attention.head_count_kv"}
 
 type replacement struct {
 	Name string
